@@ -43,6 +43,10 @@ class CFG:
         self._loops = []  # (continue target id, break frontier list)
         self._tries = []  # list of dict(handlers=[ids], catch_all=bool)
         self.ast2node = {}
+        self._store_counts = {}
+        for x in ast.walk(fnode):
+            if isinstance(x, ast.Name) and isinstance(x.ctx, (ast.Store, ast.Del)):
+                self._store_counts[x.id] = self._store_counts.get(x.id, 0) + 1
         out = self._seq(fnode.body, [(self.entry.id, None)])
         self._connect(out, self.exit.id)
         for n in self.nodes:
@@ -124,13 +128,42 @@ class CFG:
         return t, f
 
     def _seq(self, stmts, preds):
+        prev = None
         for st in stmts:
+            self._prev = prev
             preds = self._stmt(st, preds)
+            prev = st
         return preds
+
+    def _bool_alias_test(self, st):
+        """`b = <condition>` immediately followed by `if ... b ...:` where b is bound
+        exactly once in the function: the test is analysed with the condition
+        substituted for b (a named condition carries the same facts as an inline one)."""
+        prev = getattr(self, "_prev", None)
+        if not (isinstance(prev, ast.Assign) and len(prev.targets) == 1 and isinstance(prev.targets[0], ast.Name)):
+            return st.test
+        name, val = prev.targets[0].id, prev.value
+        if not isinstance(val, (ast.Compare, ast.BoolOp)) and not (isinstance(val, ast.UnaryOp) and isinstance(val.op, ast.Not)):
+            return st.test
+        if any(isinstance(x, (ast.Call, ast.NamedExpr, ast.Await)) for x in ast.walk(val)):
+            return st.test
+        if self._store_counts.get(name, 0) != 1:
+            return st.test
+        if not any(isinstance(x, ast.Name) and x.id == name for x in ast.walk(st.test)):
+            return st.test
+        import copy
+
+        class Sub(ast.NodeTransformer):
+            def visit_Name(self, n):
+                if n.id == name and isinstance(n.ctx, ast.Load):
+                    return ast.copy_location(copy.deepcopy(val), n)
+                return n
+
+        return ast.fix_missing_locations(Sub().visit(copy.deepcopy(st.test)))
 
     def _stmt(self, st, preds):
         if isinstance(st, ast.If):
-            t, f = self._cond_full(st.test, preds)
+            t, f = self._cond_full(self._bool_alias_test(st), preds)
             out = self._seq(st.body, t)
             out2 = self._seq(st.orelse, f) if st.orelse else f
             return out + out2
